@@ -120,6 +120,15 @@ def tcp_frames(ep, items, t0=100.0, dt=1.0, group=None, seg_size=None):
     return out
 
 
+def clock_step_positions(n):
+    return sorted(set(list(range(1, n, max(1, n // 4))) + [n - 2, n - 1]) & set(range(1, n)))
+
+
+def clock_step(frames, k, back=1000.0):
+    """the capture clock is set back before packet k (NTP step, concatenated captures): capture order unchanged, times not monotonic"""
+    return [f if i < k else (f[0], f[1] - back) + tuple(f[2:]) for i, f in enumerate(frames)]
+
+
 def stream_groups(items):
     """consecutive items of one direction form one byte stream (to be cut into segments without regard to record boundaries)"""
     groups = []
